@@ -25,6 +25,7 @@
 #include "hep/mc/multi_channel_summary.hpp"
 
 #include <cmath>
+#include <cstdio>
 #include <fstream>
 #include <iostream>
 #include <string>
@@ -131,8 +132,17 @@ public:
         if ((mode_ == callback_mode::silent_and_write_chkpt) ||
             (mode_ == callback_mode::verbose_and_write_chkpt))
         {
-            std::ofstream out(filename_);
-            chkpt.serialize(out);
+            // write the checkpoint into a temporary file and move it to its final name afterwards,
+            // so that a process that is killed at any time leaves either the old or the new complete
+            // checkpoint, but never a partially written one
+            std::string const temporary = filename_ + ".tmp";
+
+            {
+                std::ofstream out(temporary);
+                chkpt.serialize(out);
+            }
+
+            std::rename(temporary.c_str(), filename_.c_str());
         }
 
         return perform_more_iterations;
